@@ -1,4 +1,4 @@
-import FatVerif.Proofs.SlotTreeImg2
+import FatVerif.Proofs.SlotTreeImg7
 import FatVerif.Props.C01tree
 /-!
 # C01, read-only half END TO END at byte level: `open_dir`, `open_file`, listing on a device image
@@ -30,8 +30,11 @@ reads slots through `Spec/FatSpec`'s array reader; it is NOT proved equal to the
 is stated directly over the `DirSim` readers; the two are related by the correspondence runs (the oracle compares
 `decodeImage` of every image with the model's tree) and by the example below.
 
-Not covered: the mutating calls (they need the write simulation: see `create_file_img_statement` at the end for the
-exact lemmas required), `update_accessed_date` on (a `ChainReadable` side condition), faults.
+Mutating half (second part of this file): `create_file` with last directory = the fixed root, at every path depth,
+with the image invariant `ImgTreeW` RE-ESTABLISHED (`create_file_img_partial`), its composition with the specification
+and histories of read-only calls and such creates (`history_refines_spec_img_partial`).  Not covered: `create_dir`,
+`remove`, `rename` at byte level as whole tree steps, a last directory below the root, directory growth, FAT32
+roots, `update_accessed_date` on, faults — what is missing for each is said at the theorems.
 -/
 namespace FatVerif
 namespace C01img
@@ -262,9 +265,34 @@ def bytes : List Nat :=
   pad512 rootSlots.flatten ++
   pad512 (dotSlot ++ dotDotSlot ++ subSlots.flatten)
 
-def dev : Dev := { img := Img.ofBytes bytes 4096, fs := fs }
+/-- `bytes` padded to one page of 4096 bytes (`Img.WF`), written out (so that the kernel does not re-run the model's
+    slot-list functions for every byte it reads) -/
+def imgBytes : List Nat :=
+  List.replicate 512 0 ++
+  [248, 255, 255, 255, 3, 0, 255, 255] ++
+  List.replicate 504 0 ++
+  [65, 115, 0, 117, 0, 98, 0, 0, 0, 255, 255, 15, 0, 191, 255, 255, 255, 255, 255, 255, 255, 255, 255, 255, 255, 255, 0, 0, 255, 255, 255, 255, 83, 85, 66, 32, 32, 32, 32, 32, 32, 32, 32, 16] ++
+  List.replicate 14 0 ++
+  [2] ++
+  List.replicate 453 0 ++
+  [46, 32, 32, 32, 32, 32, 32, 32, 32, 32, 32, 16] ++
+  List.replicate 14 0 ++
+  [2, 0, 0, 0, 0, 0, 46, 46, 32, 32, 32, 32, 32, 32, 32, 32, 32, 16] ++
+  List.replicate 20 0 ++
+  [66, 120, 0, 116, 0, 0, 0, 255, 255, 255, 255, 15, 0, 27, 255, 255, 255, 255, 255, 255, 255, 255, 255, 255, 255, 255, 0, 0, 255, 255, 255, 255, 1, 72, 0, 101, 0, 108, 0, 108, 0, 111, 0, 15, 0, 27, 32, 0, 87, 0, 111, 0, 114, 0, 108, 0, 100, 0, 0, 0, 46, 0, 116, 0, 72, 69, 76, 76, 79, 87, 126, 49, 84, 88, 84] ++
+  List.replicate 373 0 ++
+  List.replicate 2048 0
+
+def dev : Dev := { img := Img.ofBytes imgBytes 4096, fs := fs }
 def env : Env := ⟨up0⟩
 def cl (p : List String) : Option Nat := if p = [] then none else some 2
+
+theorem wf : dev.img.WF := by
+  intro k p hk
+  simp only [dev, Img.ofBytes, Std.HashMap.getElem?_insert] at hk
+  split at hk
+  · cases hk; decide +kernel
+  · simp at hk
 
 theorem root4_wf : TreeWf up0 root4 := by
   have hchk : checkForExistenceL up0 [] "sub" (some true) 20 = .ok (.alias aliasSub) := by decide +kernel
@@ -351,55 +379,71 @@ theorem dirs_of_root4 (cur : List String) (s : List (List Nat)) (c : List (LfnEn
 
 theorem shiftE_zero (e : LfnEntry) : shiftE 0 e = e := rfl
 
-/-- **the image holds the slot tree** -/
-theorem imgTree : ImgTree dev up0 root4 cl := by
-  refine ⟨rfl, ?_⟩
-  intro cur s c hg st hs
-  rcases dirs_of_root4 cur s c hg with ⟨rfl, rfl, rfl⟩ | ⟨q, rfl, rfl, rfl⟩
-  · -- the root: the fixed region
-    have hst : st = rootAt dev.fs 0 := by
-      rcases hs with ⟨_, h⟩ | ⟨e, _, he, h⟩
-      · exact h
-      · rw [h]; unfold DirEntry.dirStream
-        have : e.firstCluster dev.fs = none := he
-        rw [this]; rfl
-    subst hst
-    refine ⟨DirView.ofRoot rootReadable, [], 0, ?_, fun _ => rfl, fun h => absurd rfl h, ?_⟩
-    · show readDirEntries dev.fs.lfnAlloc true (srcSlots dev.img (fun o => (rootSliceOf dev.fs).beginOff + o) 16) =
-        [] ++ (listing rootSlots).map (shiftE 0)
-      decide +kernel
-    · intro x hx _
-      simp only [List.mem_singleton] at hx
-      rw [hx]
-      show (toDirEntryS (fun o => (rootSliceOf dev.fs).beginOff + o) (shiftE 0 eSub)).firstCluster dev.fs = cl _
-      have : cl ([] ++ [entryName eSub]) = some 2 := by simp [cl]
-      rw [this]
-      decide +kernel
-  · -- `sub`: the chain of cluster 2
-    have hcl : cl [q] = some 2 := by simp [cl]
-    obtain ⟨e, hd, he, hst⟩ : ∃ e : DirEntry, e.isDir = true ∧ e.firstCluster dev.fs = some 2 ∧
-        st = .file (FileH.new (some 2) (some e.editor)) := by
-      rcases hs with ⟨h, _⟩ | ⟨e, hd, he, h⟩
-      · rw [hcl] at h; cases h
-      · rw [hcl] at he
-        refine ⟨e, hd, he, ?_⟩
-        rw [h]; unfold DirEntry.dirStream; rw [he]
-    subst hst
-    have hlist : readDirEntries dev.fs.lfnAlloc true (srcSlots dev.img (chainSrc dev.fs [2, 3]) 32) =
-        [⟨dotSlot, [], 0, 1⟩, ⟨dotDotSlot, [], 1, 2⟩] ++ (listing subSlots).map (shiftE 2) := by
-      decide +kernel
-    refine ⟨DirView.ofChain (subReadable_entry e hd), [⟨dotSlot, [], 0, 1⟩, ⟨dotDotSlot, [], 1, 2⟩], 2, hlist,
-      fun h => (by cases h), fun _ => ⟨_, _, rfl, ?_⟩, ?_⟩
-    · refine ⟨rfl, by decide, by decide, ?_, rfl, by decide, by decide, ?_⟩
-      · rw [hcl]
-        show (toDirEntryS (chainSrc dev.fs [2, 3]) ⟨dotSlot, [], 0, 1⟩).firstCluster dev.fs = some 2
-        decide +kernel
-      · show (toDirEntryS (chainSrc dev.fs [2, 3]) ⟨dotDotSlot, [], 1, 2⟩).firstCluster dev.fs = cl []
-        decide +kernel
-    · intro x hx hdir
-      simp only [List.mem_singleton] at hx
-      rw [hx] at hdir
-      cases hdir
+theorem layout : Layout dev :=
+  ⟨by decide, wf, rfl, rfl, by decide, by decide, by decide⟩
+
+/-- the first two root slots of the image are the model's root slot list … -/
+theorem ex_h1 : (rootDirSlots dev.fs dev.img).take 2 = rootSlots := by decide +kernel
+/-- … and the other fourteen begin with a zero byte (end markers) -/
+theorem ex_h1z : ∀ j, j < 16 → 2 ≤ j → dev.img.getByte (1024 + 32 * j) = 0 := by decide +kernel
+theorem ex_h3 : (toDirEntryS (rootSrc fs) eSub).firstCluster fs = some 2 := by decide +kernel
+theorem ex_k1 : listing (chainSlots dev.fs dev.img [2, 3]) =
+    [⟨dotSlot, [], 0, 1⟩, ⟨dotDotSlot, [], 1, 2⟩] ++ (listing subSlots).map (shiftE 2) := by decide +kernel
+theorem ex_k2 : (toDirEntryS (chainSrc fs [2, 3]) ⟨dotSlot, [], 0, 1⟩).firstCluster fs = some 2 := by
+  decide +kernel
+theorem ex_k3 : (toDirEntryS (chainSrc fs [2, 3]) ⟨dotDotSlot, [], 1, 2⟩).firstCluster fs = none := by
+  decide +kernel
+
+/-- **the image holds the slot tree** (concrete bundle) -/
+theorem imgTreeW : ImgTreeW dev up0 root4 cl := by
+  refine ⟨layout, rfl, ?_, ?_⟩
+  · intro s c ht
+    rw [root4_eq] at ht
+    simp only [Node.dir.injEq] at ht
+    obtain ⟨rfl, rfl⟩ := ht
+    have hlen := rootDirSlots_length rootReadable
+    have h1 : rootDirSlots dev.fs dev.img = rootSlots ++ (rootDirSlots dev.fs dev.img).drop 2 := by
+      rw [← ex_h1]; exact (List.take_append_drop 2 _).symm
+    have h2 : ∀ x ∈ (rootDirSlots dev.fs dev.img).drop 2, Lfn.isEnd x = true := by
+      intro x hx
+      obtain ⟨i, hi, rfl⟩ := List.mem_iff_getElem.1 hx
+      rw [List.length_drop, hlen] at hi
+      rw [List.getElem_drop]
+      have hg := rootDirSlots_get rootReadable (2 + i) (by omega)
+      rw [List.getD_eq_getElem?_getD, List.getElem?_eq_getElem (by rw [hlen]; omega), Option.getD_some] at hg
+      rw [hg]
+      unfold Lfn.isEnd Lfn.byte
+      rw [Img.read_getD _ _ _ _ (by omega)]
+      have := ex_h1z (2 + i) (by omega) (by omega)
+      simp only [beq_iff_eq]
+      exact this
+    have h3 := ex_h3
+    unfold RootImg
+    refine ⟨16, (rootDirSlots dev.fs dev.img).drop 2, rootReadable, h1, h2, ?_⟩
+    intro x hx _
+    simp only [List.mem_singleton] at hx
+    rw [hx]
+    have : cl [entryName eSub] = some 2 := by simp [cl]
+    rw [this]
+    exact h3
+  · intro cur s c hne hg
+    rcases dirs_of_root4 cur s c hg with ⟨rfl, _, _⟩ | ⟨q, rfl, rfl, rfl⟩
+    · exact absurd rfl hne
+    · have hcl : cl [q] = some 2 := by simp [cl]
+      have k1 := ex_k1
+      have k2 := ex_k2
+      have k3 := ex_k3
+      unfold SubImg
+      refine ⟨2, [2, 3], ⟨dotSlot, [], 0, 1⟩, ⟨dotDotSlot, [], 1, 2⟩, hcl,
+        subReadable none rfl (fun e he => by cases he), k1, ?_, ?_⟩
+      · exact ⟨rfl, by decide, by decide, by rw [hcl]; exact k2, rfl, by decide, by decide, k3⟩
+      · intro x hx hdir
+        simp only [List.mem_singleton] at hx
+        rw [hx] at hdir
+        cases hdir
+
+/-- … hence the abstract one: the read-only theorems apply -/
+theorem imgTree : ImgTree dev up0 root4 cl := imgTreeW.toImgTree
 
 theorem dotSafe : DotSafe up0 := UpperSafe.dotSafe upperSafe_ascii
 
@@ -435,6 +479,175 @@ example : (∀ d1, SameVol dev d1 → FailsV (openFile env 30 (rootDirStream dev
   ⟨(open_file_img imgTree root4_wf dotSafe env rfl [] _ den_root4 "sub/nothing" 30 (by decide)).2 _ (by decide +kernel),
    (open_dir_img imgTree root4_wf dotSafe env rfl [] _ den_root4 "sub/Hello World.txt/x" 30 (by decide)).2 _
      (by decide +kernel)⟩
+
+end Ex4
+
+/-! ## the MUTATING half, first part: `create_file` whose last directory is the fixed root (FAT12/16)
+
+Concrete bundle `SlotTreeImg.ImgTreeW d up t cl` (Proofs/SlotTreeImg3.lean; `ImgTreeW.toImgTree`): layout facts, the
+root region holds the root node's slot list followed by end markers (slot level), every sub-directory is a readable
+cluster chain listing its dot entries and the node's entries.  It is RE-ESTABLISHED after the write
+(`imgTreeW_root_step`): every other directory is carried over by the frame of the write.
+
+* `create_file_img_partial` (= `SlotTreeImg.create_file_root_img`): `create_file` through any handle, on a path of
+  any depth whose directory components lead back to the root (`x`, `./x`, `sub/../x`, …): the byte-level program ends
+  as `createS` says — `InvalidInput` (dot name, existing directory, a file used as a directory on the way),
+  `NotFound`, the error of `validate_long_name`, the existing file, or a new entry — and after success the image holds
+  the new slot tree (`ImgTreeW d' up t' cl`), the short record being `sfnWith alias (0 :: sfnStamp fs clock none)`
+  with the alias of `check_for_existence` (C16).  Resource hypothesis `HasRoomRoot`: the entry fits into the root
+  region.  `_partial` because of `hlast` (last directory = root).  MISSING for a last directory below the root:
+  (i) listing-invariance of the PARENT under the re-stamping of the directory's own entry (bytes 22–25 of one short
+  slot; agent-effects' `WView.ofSub` / `stamped_record` give the byte facts) — with it `ImgTree`'s entries equation has
+  to be stated modulo those bytes; (ii) slot-level relation for sub-directories (dot slots in front:
+  `find_free_entries`/`write_entry` shift by 2) and the neutrality of the two dot names for the alias generator;
+  (iii) growth of a directory by a cluster.
+* `create_file_refines_spec_img_partial`: composed with `C01tree.slot_step_refines`.
+* `history_refines_spec_img_partial`: any finite history of `open_dir`, `open_file`, listing and such `create_file`
+  calls through the root handle, the hypotheses holding at each step: the byte-level outcomes are the slot tree's,
+  the specification's checker accepts them in turn, and the final image holds a slot tree whose abstraction is the
+  specification's final tree.  MISSING calls: `create_dir`, `remove`, `rename` (single-directory simulations exist:
+  `WView.createDir_sim`, `remove_file_sim`, `rename_*_sim`; their composition needs, besides the above, the FAT-level
+  frame for freed / allocated clusters against the other directories' chains), handles other than the root's. -/
+
+section mutating
+open SlotTreeImg
+
+/-- **`create_file` at byte level, last directory = the fixed root.** -/
+theorem create_file_img_partial {d : Dev} {up : Char → List Char} {t : Node} {cl : List String → Option Nat}
+    (W : ImgTreeW d up t cl) (hwf : TreeWf up t) (hup : DotSafe up) (env : Env)
+    (henv : env.upper = up) (cwd : List String) (st : DirStream) (hden : Den d up t cl cwd st) (path : String)
+    (fuel : Nat) (hfuel : path.toList.length < fuel)
+    (hlast : ∀ p, walkDirsS up t cwd (pathParts path).1 = .ok p → p = [])
+    (hroom : ∀ slots ch, t = .dir slots ch → HasRoomRoot d slots (pathParts path).2)
+    (hnh : (createS up 70000 t cwd path false (sfnStamp d.fs d.clock none)).out ≠ .error .hang) :
+    (∀ e, (createS up 70000 t cwd path false (sfnStamp d.fs d.clock none)).out = .error e →
+      FailsV (createFile env fuel st path) d e) ∧
+    (∀ rows, (createS up 70000 t cwd path false (sfnStamp d.fs d.clock none)).out = .ok rows →
+      ∃ (h : FileH) (d' : Dev), run (createFile env fuel st path) d = (.ok h, d') ∧ VolStep d d' ∧
+        ImgTreeW d' up (createS up 70000 t cwd path false (sfnStamp d.fs d.clock none)).tree cl) :=
+  create_file_root_img W hwf hup env henv cwd st hden path fuel hfuel hlast hroom hnh
+
+/-- … composed with the refinement of the specification: the outcome is accepted by `Spec.evalOp` on `abs t`; after
+    success the new image holds a well-formed slot tree whose abstraction is the specification's new tree -/
+theorem create_file_refines_spec_img_partial (u : Char → List Char) {d : Dev} {t : Node}
+    {cl : List String → Option Nat} (W : ImgTreeW d (upOf u) t cl) (hwf : TreeWf (upOf u) t)
+    (hup : DotSafe (upOf u)) (env : Env) (henv : env.upper = upOf u) (cwd : List String) (st : DirStream)
+    (hden : Den d (upOf u) t cl cwd st) (path : String) (fuel : Nat) (hfuel : path.toList.length < fuel)
+    (hlast : ∀ p, walkDirsS (upOf u) t cwd (pathParts path).1 = .ok p → p = [])
+    (hroom : ∀ slots ch, t = .dir slots ch → HasRoomRoot d slots (pathParts path).2)
+    (hnh : (createS (upOf u) 70000 t cwd path false (sfnStamp d.fs d.clock none)).out ≠ .error .hang)
+    (hok : OpOk (upOf u) t (.createFile cwd path)) :
+    (∃ e, FailsV (createFile env fuel st path) d e ∧
+      e ∈ (Spec.evalOp (cfgOf u) (abs t) (.createFile cwd path)).errs) ∨
+    (∃ (h : FileH) (d' : Dev) (t' : Node), run (createFile env fuel st path) d = (.ok h, d') ∧ VolStep d d' ∧
+      ImgTreeW d' (upOf u) t' cl ∧ TreeWf (upOf u) t' ∧
+      (Spec.evalOp (cfgOf u) (abs t) (.createFile cwd path)).errs = [] ∧
+      (Spec.evalOp (cfgOf u) (abs t) (.createFile cwd path)).tree = abs t') := by
+  obtain ⟨o1, o2⟩ := create_file_img_partial W hwf hup env henv cwd st hden path fuel hfuel hlast hroom hnh
+  obtain ⟨hwf', _, hacc⟩ := slot_step_refines u 70000 t hwf (.createFile cwd path) (sfnStamp d.fs d.clock none) hok
+  simp only [stepSlot] at hwf' hacc
+  unfold Accepts at hacc
+  cases hout : (createS (upOf u) 70000 t cwd path false (sfnStamp d.fs d.clock none)).out with
+  | error e =>
+    rw [hout] at hacc
+    rcases hacc with h | h
+    · exact absurd (h ▸ hout) hnh
+    · exact Or.inl ⟨e, o1 e hout, h⟩
+  | ok rows =>
+    rw [hout] at hacc
+    obtain ⟨h, d', hr, hs, hW⟩ := o2 rows hout
+    exact Or.inr ⟨h, d', _, hr, hs, hW, hwf', hacc.1, hacc.2⟩
+
+/-! ### histories through the root handle -/
+
+/-- a history of calls at byte level with the slot tree beside it: the observed outcomes, the final device and tree -/
+inductive ByteRun (env : Env) (fuel : Nat) (up : Char → List Char) :
+    Dev → Node → List Call → List (Spec.Op × Spec.Obs) → Dev → Node → Prop
+  | nil (d : Dev) (t : Node) : ByteRun env fuel up d t [] [] d t
+  | cons {d d1 d' : Dev} {t t' : Node} {c : Call} {rest : List Call} {obs : List (Spec.Op × Spec.Obs)} :
+      ByteOut env fuel d c (outErr (modelStep up d t c)) d1 →
+      ByteRun env fuel up d1 (modelStep up d t c).tree rest obs d' t' →
+      ByteRun env fuel up d t (c :: rest) ((c.op, obsOf (modelStep up d t c)) :: obs) d' t'
+
+/-- the hypotheses hold at every step of the history, whatever device the step before ended in -/
+def HistOk (up : Char → List Char) (cl : List String → Option Nat) (fuel : Nat) : Dev → Node → List Call → Prop
+  | _, _, [] => True
+  | d, t, c :: rest => CallOk up d t fuel c ∧ OpOk up t c.op ∧
+      ∀ d1, VolStep d d1 → d1.clock = d.clock → ImgTreeW d1 up (modelStep up d t c).tree cl →
+        HistOk up cl fuel d1 (modelStep up d t c).tree rest
+
+/-- **C01 at byte level for histories (partial: calls `open_dir`, `open_file`, listing, `create_file` with last
+    directory = root, all through the root handle)**: from a device whose image holds a well-formed slot tree, every
+    call's byte-level program ends with the slot tree's outcome (`ByteRun`), the specification's checker accepts the
+    outcomes in turn and ends in the abstraction of the final slot tree, which the final image holds. -/
+theorem history_refines_spec_img_partial (u : Char → List Char) (hup : DotSafe (upOf u)) (env : Env)
+    (henv : env.upper = upOf u) (cl : List String → Option Nat) (fuel : Nat) :
+    ∀ (calls : List Call) (d : Dev) (t : Node), ImgTreeW d (upOf u) t cl → TreeWf (upOf u) t → t.isDir = true →
+    HistOk (upOf u) cl fuel d t calls →
+    ∃ (obs : List (Spec.Op × Spec.Obs)) (d' : Dev) (t' : Node),
+      ByteRun env fuel (upOf u) d t calls obs d' t' ∧ ImgTreeW d' (upOf u) t' cl ∧ TreeWf (upOf u) t' ∧
+      specRun (cfgOf u) (abs t) obs = .ok (abs t')
+  | [], d, t, W, hwf, _, _ => ⟨[], d, t, ByteRun.nil d t, W, hwf, rfl⟩
+  | c :: rest, d, t, W, hwf, hdir, hh => by
+    obtain ⟨hc, hok, hnext⟩ := hh
+    obtain ⟨d1, hbo, hs, hW1, hclk⟩ := byte_step W hwf hup env henv fuel c hc ((isDir_iff_dir t).1 hdir)
+    have hnh := modelStep_no_hang (upOf u) d t fuel c hc
+    have hstep := slot_step_spec_step u 70000 t hwf c.op (sfnStamp d.fs d.clock none) hok hnh
+    have hwf1 := (slot_step_refines u 70000 t hwf c.op (sfnStamp d.fs d.clock none) hok).1
+    have hdir1 : (modelStep (upOf u) d t c).tree.isDir = true := by rw [modelStep_isDir]; exact hdir
+    obtain ⟨obs, d', t', hrun, hW', hwf', hspec⟩ :=
+      history_refines_spec_img_partial u hup env henv cl fuel rest d1 _ hW1 hwf1 hdir1 (hnext d1 hs hclk hW1)
+    refine ⟨_, d', t', ByteRun.cons hbo hrun, hW', hwf', ?_⟩
+    simp only [specRun]
+    have : Spec.step (cfgOf u) (abs t) c.op (obsOf (modelStep (upOf u) d t c)) =
+        .ok (abs (modelStep (upOf u) d t c).tree) := hstep
+    rw [this]
+    exact hspec
+
+end mutating
+
+
+/-! ### non-vacuity of the mutating part: `create_file("sub/../New File.txt")` on the image of `Ex4` -/
+
+namespace Ex4
+open C01tree.Ex SlotTreeImg
+
+def stampNew : List Nat := sfnStamp dev.fs dev.clock none
+
+/-- what the slot tree says: success, and the root then lists `sub` and `New File.txt` -/
+theorem model_create :
+    (createS up0 70000 root4 [] "sub/../New File.txt" false stampNew).out = .ok [] ∧
+    (abs (createS up0 70000 root4 [] "sub/../New File.txt" false stampNew).tree).children.map (·.1) =
+      ["sub", "New File.txt"] := by decide +kernel
+
+theorem walk_back : walkDirsS up0 root4 [] (pathParts "sub/../New File.txt").1 = .ok [] := by decide +kernel
+
+theorem room_new : DirSlots.findFree rootSlots (numParts (Names.encodeUtf16 "New File.txt".toList).length + 1) +
+    (numParts (Names.encodeUtf16 "New File.txt".toList).length + 1) ≤ 16 := by decide +kernel
+
+/-- **the byte-level `create_file` on the image**: walks into `sub` (cluster 2), back through its `..` entry, writes
+    the two slots of `New File.txt` into the root region; afterwards the image holds the new slot tree -/
+example : ∃ (h : FileH) (d' : Dev),
+    run (createFile env 30 (rootDirStream dev.fs) "sub/../New File.txt") dev = (.ok h, d') ∧ VolStep dev d' ∧
+    ImgTreeW d' up0 (createS up0 70000 root4 [] "sub/../New File.txt" false stampNew).tree cl := by
+  obtain ⟨_, o2⟩ := create_file_img_partial imgTreeW root4_wf dotSafe env rfl [] _ den_root4 "sub/../New File.txt" 30
+    (by decide)
+    (fun p hp => by rw [walk_back] at hp; cases hp; rfl)
+    (fun slots ch ht => by
+      rw [root4_eq] at ht
+      simp only [Node.dir.injEq] at ht
+      obtain ⟨rfl, _⟩ := ht
+      intro N hN
+      have hpp : (pathParts "sub/../New File.txt").2 = "New File.txt" := by decide +kernel
+      rw [hpp]
+      have h16 : N = 16 := by
+        have h1 := hN.slots
+        have h2 : (rootSliceOf dev.fs).size = 512 := by decide
+        omega
+      rw [h16]
+      exact room_new)
+    (by rw [show sfnStamp dev.fs dev.clock none = stampNew from rfl, model_create.1]; simp)
+  exact o2 [] model_create.1
 
 end Ex4
 
